@@ -373,6 +373,10 @@ func functionalFailures(c *core.Ctx, runs []*childRun, rerun func(job c17drv.Job
 					kinds[f.Kind] = f.Detail
 				}
 			}
+			if d, ok := kinds["driver"]; ok {
+				c.Broken("phase %s: scripted peer / driver problem: %s", phase, d)
+				continue
+			}
 			envProblem := ""
 			for k, d := range kinds {
 				for _, pat := range []string{"deadline exceeded", "i/o timeout", "connection refused", "too many open files", "cannot assign requested address"} {
@@ -415,6 +419,10 @@ func functionalFailures(c *core.Ctx, runs []*childRun, rerun func(job c17drv.Job
 				action = "DuplexStream"
 			case "manager":
 				action = "SharedManagerHandshakes"
+			case "fresh":
+				action = "SharedPerCommandPolicyHandshakes"
+			case "ccb":
+				action = "CCBListenerBrokerStream"
 			}
 			ks := make([]string, 0, len(kinds))
 			for k := range kinds {
@@ -493,10 +501,15 @@ func run(c *core.Ctx) {
 	if want("net") {
 		var njobs []c17drv.Job
 		for i, p := range procs {
-			njobs = append(njobs, c17drv.Job{Phases: []string{"handshake_seq", "handshake", "manager_seq", "manager", "duplex"}, Seed: seed*37 + int64(i), Procs: p, Yield: i%2 == 0, Clients: clients, Iters: iters, Conns: conns})
+			njobs = append(njobs, c17drv.Job{Phases: []string{"handshake_seq", "handshake", "fresh", "manager_seq", "manager", "duplex"}, Seed: seed*37 + int64(i), Procs: p, Yield: i%2 == 0, Clients: clients, Iters: iters, Conns: conns})
+		}
+		if c.Thorough() {
+			// ccb.NewListener enforces a heartbeat interval >= 30 s: one tick costs a 32 s run, thorough tier only
+			njobs = append(njobs, c17drv.Job{Phases: []string{"ccb"}, Seed: seed*41 + 1, Procs: 4},
+				c17drv.Job{Phases: []string{"ccb"}, Seed: seed*41 + 2, Procs: 16})
 		}
 		netwg.Add(1)
-		go func() { defer netwg.Done(); netRuns = runChildren(c, njobs, 2) }()
+		go func() { defer netwg.Done(); netRuns = runChildren(c, njobs, 3) }()
 	}
 
 	// 3. the conflict relation of the model -> pairs to hammer
@@ -558,7 +571,7 @@ func run(c *core.Ctx) {
 	if c.IsBroken() {
 		return
 	}
-	var cacheOps, handshakes, resumed, fresh, msgs, mgrHandshakes, mgrEncrypted int64
+	var cacheOps, handshakes, resumed, fresh, msgs, mgrHandshakes, mgrEncrypted, ccbReq, ccbRes, ccbHB int64
 	usedProcs := map[int]bool{}
 	for _, cr := range runs {
 		if cr.err != nil {
@@ -577,6 +590,13 @@ func run(c *core.Ctx) {
 			c.Eval("pair/"+k+"/"+strconv.Itoa(cr.job.Procs), true)
 		}
 		for ph, st := range cr.res.Net {
+			if ph == "ccb" {
+				ccbReq += st.Handshakes
+				ccbRes += st.Messages
+				ccbHB += st.Resumed
+				c.Eval(fmt.Sprintf("net/%s/%d", ph, cr.job.Procs), true)
+				continue
+			}
 			if ph == "manager" || ph == "manager_seq" {
 				// one shared SecurityManager per side; Resumed counts the encrypted outcomes here
 				mgrHandshakes += st.Handshakes
@@ -637,6 +657,14 @@ func run(c *core.Ctx) {
 	c.Set("cache_ops_under_race_detector", cacheOps)
 	c.Set("handshakes_sharing_one_config", handshakes)
 	c.Set("handshakes_resumed", resumed)
+	if c.Thorough() && want("net") {
+		if ccbReq == 0 || ccbHB == 0 {
+			c.Broken("CCB listener phase is vacuous: %d requests, %d heartbeats", ccbReq, ccbHB)
+		}
+		c.Set("ccb_requests_forwarded", ccbReq)
+		c.Set("ccb_results_received", ccbRes)
+		c.Set("ccb_heartbeats_on_the_same_stream", ccbHB)
+	}
 	c.Set("handshakes_through_shared_security_managers", mgrHandshakes)
 	c.Set("handshakes_through_shared_security_managers_encrypted", mgrEncrypted)
 	c.Set("handshakes_fresh", fresh)
@@ -648,6 +676,6 @@ func run(c *core.Ctx) {
 	sort.Ints(pl)
 	c.Set("gomaxprocs", pl)
 	c.Set("rule", "model: every interleaving of the critical-section steps of 3 goroutines x <=2 cache operations over 2 ids (TLC, invariants LocksetDiscipline, NoTornExpiry, NoLostInvalidate, RefinesSeq, Linearizable); "+
-		"binding: every conflicting operation pair of the model (generated by TLC) hammered on the real cache, plus seeded random stress, many clients sharing one SecurityConfig and one cache against one real server (fresh and resuming), overlapping handshakes through one shared SecurityManager per side (sm.ServerHandshake / sm.ClientHandshake, encrypted echo), and simultaneous send/receive on established streams, all in race-enabled child processes at several GOMAXPROCS with injected yields; "+
+		"binding: every conflicting operation pair of the model (generated by TLC) hammered on the real cache, plus seeded random stress, many clients sharing one SecurityConfig and one cache against one real server whose per-command policy hook returns one shared object (fresh and resuming; plus all-fresh concurrent handshakes), overlapping handshakes through one shared SecurityManager per side (sm.ServerHandshake / sm.ClientHandshake, encrypted echo), and simultaneous send/receive on established streams, all in race-enabled child processes at several GOMAXPROCS with injected yields; "+
 		"each distinct pair of racing cedar functions in the race log is one failure; evaluations = pair hammers + stress runs + network phases + recorded histories; every recorded call/return history (<= ~32 operations, <= 4 goroutines, quiescent post-condition reads included) is validated by TLC against the sequential cache specification as a linearizability search")
 }
